@@ -315,38 +315,191 @@ def graph_items(tier):
   return items
 
 
-def graph_work(item):
+def _order_check(spec, st, viol):
   from vk import tg
+  n, b = spec["n"], len(spec["vars"])
+  st["graphs"] += 1
+  queries = [(q, S) for q in range(n) for S in tg.subsets(range(b), 2)]
+  ga = tg.build(spec)
+  fwd = [ga.nodes[q].HasCombination([ga.bobjs[i] for i in S]) for q, S in queries]
+  gb = tg.build(spec)
+  rev = [gb.nodes[q].HasCombination([gb.bobjs[i] for i in S]) for q, S in reversed(queries)][::-1]
+  again = [ga.nodes[q].HasCombination([ga.bobjs[i] for i in S]) for q, S in queries]
+  st["queries"] += 3 * len(queries)
+  for k, (q, S) in enumerate(queries):
+    gf = tg.build(spec)
+    fresh = gf.nodes[q].HasCombination([gf.bobjs[i] for i in S])
+    st["queries"] += 1
+    st["true"] += bool(fresh)
+    if not (fwd[k] == rev[k] == again[k] == fresh):
+      if len(viol) < VIOL_CAP:
+        viol.append((spec, "HasCombination(n%d, %s): fresh program %s, after %d earlier queries %s, after the %d later "
+                           "queries (reverse order) %s, asked again %s" % (q, list(S), fresh, k, fwd[k],
+                                                                           len(queries) - 1 - k, rev[k], again[k]),
+                     {"q": q, "S": list(S)}))
+      break
+
+
+def graph_work(item):
+  from vk.checks import c07
+  st = {"graphs": 0, "queries": 0, "true": 0}
+  viol = []
+  if item[0] == "ss":
+    for spec in ss_specs(item):
+      _order_check(spec, st, viol)
+    return st, viol
+  n, edges, vars_, D, maxcond = item
+  for origins, conds in c07.specs_for(item):
+    _order_check(c07.to_spec(n, edges, vars_, origins, conds), st, viol)
+  return st, viol
+
+
+# Source-set family: every binding has ONE origin (any node) whose single source set is any set of <=2 other
+# bindings, and at most one node carries a condition (any binding).  The deviation-bounded families above reach a
+# two-member source set plus a condition only at D=3; this family has them all on graphs with two routes between
+# the first and the last node (a conditioned node can be by-passed), the shape the solver's path cache is about.
+
+
+def ss_items(tier):
+  from vk.checks import c07
+  items = []
+  if tier == "quick":
+    base = {(0, 1), (0, 2), (1, 3), (2, 3)}
+    for extra in ((), ((0, 3),), ((1, 2),), ((0, 3), (1, 2))):
+      es = tuple(sorted(base | set(extra)))
+      for placement in itertools.product(range(4), repeat=3):
+        items.append(("ss", 4, es, (0, 1, 2), placement))
+  else:
+    for es in c07.edge_sets(4, False):
+      for va in ((0, 1, 2), (0, 0, 1), (0, 1, 0), (0, 1, 1)):
+        for placement in itertools.product(range(4), repeat=3):
+          items.append(("ss", 4, es, va, placement))
+  return items
+
+
+def ss_specs(item):
+  _, n, edges, vars_, placement = item
+  b = len(vars_)
+  choices = []
+  for i in range(b):
+    others = [j for j in range(b) if j != i]
+    choices.append([()] + [(j,) for j in others] + [tuple(c) for c in itertools.combinations(others, 2)])
+  condopts = [{}] + [{str(m): j} for m in range(n) for j in range(b)]
+  for sss in itertools.product(*choices):
+    origins = [[[placement[i], [sorted(sss[i])]]] for i in range(b)]
+    for conds in condopts:
+      yield {"n": n, "edges": [list(e) for e in edges], "vars": list(vars_), "origins": origins, "conds": conds}
+
+
+# ---------------------------------------------------------------- one mutation after a warm cache, from enumerated graphs
+#
+# Third phase (non-initial states x mutations): every typegraph of a family is built, the solver's caches are
+# warmed with ALL queries of the alphabet, then ONE mutation of the full alphabet is applied (an edge between any
+# two nodes - including shortcuts between nodes that are already connected and back edges -, a new node, a
+# condition set / changed / cleared, a new origin with or without a source set on any binding, a new binding on
+# any variable, PasteBinding), and ALL queries are asked again; a replica that was built, mutated the same way and
+# never queried before must give the same answers.  The BFS from the empty program cannot reach these states
+# within its depth (a 3-node path with two bindings and a query is already 7 operations).
+
+
+def mut_items(tier):
+  from vk.checks import c07
+  items = []
+
+  def add(n, b, v, cyclic, D, maxcond):
+    for es in c07.edge_sets(n, cyclic):
+      for va in c07.rgs(b, v):
+        items.append((n, es, va, D, maxcond))
+  if tier == "quick":
+    add(3, 2, 2, False, 1, 1)
+    add(2, 2, 2, True, 1, 1)
+    add(4, 2, 1, False, 0, 0)
+  else:
+    add(3, 2, 2, True, 1, 1)
+    add(3, 3, 2, False, 1, 1)
+    add(4, 2, 2, False, 1, 1)
+    add(4, 3, 3, False, 0, 0)
+  return items
+
+
+def _mutations(spec):
+  n, b = spec["n"], len(spec["vars"])
+  nv = max(spec["vars"]) + 1 if spec["vars"] else 0
+  edges = {tuple(e) for e in spec["edges"]}
+  conds = {int(k): v for k, v in spec["conds"].items()}
+  out = [("conn", a, c) for a in range(n) for c in range(n) if a != c and (a, c) not in edges]
+  out += [("cnew", a) for a in range(n)]
+  for m in range(n):
+    out += [("cond", m, j) for j in range(b) if conds.get(m) != j]
+    if m in conds:
+      out.append(("cond", m, None))
+  sss = [()] + [(j,) for j in range(b)]
+  out += [("origin", i, m, ss) for i in range(b) for m in range(n) for ss in sss]
+  out += [("bindnew", v, m, ss) for v in range(nv) for m in range(n) for ss in sss]
+  out += [("paste", v, i, m) for v in range(nv) for i in range(b) for m in [None] + list(range(n))]
+  return out
+
+
+def _mutate(g, op):
+  k = op[0]
+  if k == "conn":
+    g.nodes[op[1]].ConnectTo(g.nodes[op[2]])
+  elif k == "cnew":
+    g.nodes.append(g.nodes[op[1]].ConnectNew("new"))
+  elif k == "cond":
+    g.nodes[op[1]].condition = None if op[2] is None else g.bobjs[op[2]]
+  elif k == "origin":
+    g.bobjs[op[1]].AddOrigin(g.nodes[op[2]], [g.bobjs[j] for j in op[3]])
+  elif k == "bindnew":
+    g.bobjs.append(g.vobjs[op[1]].AddBinding("new", [g.bobjs[j] for j in op[3]], g.nodes[op[2]]))
+  elif k == "paste":
+    g.vobjs[op[1]].PasteBinding(g.bobjs[op[2]], None if op[3] is None else g.nodes[op[3]])
+    known = {x.id for x in g.bobjs}
+    g.bobjs += sorted((x for x in g.vobjs[op[1]].bindings if x.id not in known), key=lambda x: x.id)
+  else:
+    raise ValueError(op)
+
+
+def _ask(g, kmax=2):
+  from vk import tg
+  nodes, bobjs = g.nodes, g.bobjs
+  return [(q, S, nodes[q].HasCombination([bobjs[i] for i in S]))
+          for q in range(len(nodes)) for S in tg.subsets(range(len(bobjs)), kmax)]
+
+
+def mut_check(spec, op):
+  """None, or a summary of the first query that differs after `op` between a warmed and a never-queried program."""
+  from vk import tg
+  live = tg.build(spec)
+  live.nodes, live.bobjs = list(live.nodes), list(live.bobjs)
+  _ask(live)
+  _mutate(live, op)
+  got = _ask(live)
+  fresh = tg.build(spec)
+  fresh.nodes, fresh.bobjs = list(fresh.nodes), list(fresh.bobjs)
+  _mutate(fresh, op)
+  want = _ask(fresh)
+  for (q, S, a), (_, _, w) in zip(got, want):
+    if a != w:
+      return ("after all queries were asked and then %s: HasCombination(n%d, %s) = %s on the long-lived program, %s on "
+              "a replica that was never queried before" % (list(op), q, list(S), a, w)), len(got)
+  return None, len(got)
+
+
+def mut_work(item):
   from vk.checks import c07
   n, edges, vars_, D, maxcond = item
-  st = {"graphs": 0, "queries": 0, "true": 0}
+  st = {"graphs": 0, "mutations": 0, "queries": 0}
   viol = []
   for origins, conds in c07.specs_for(item):
     spec = c07.to_spec(n, edges, vars_, origins, conds)
     st["graphs"] += 1
-    b = len(vars_)
-    queries = [(q, S) for q in range(n) for S in tg.subsets(range(b), 2)]
-    ga = tg.build(spec)
-    fwd = [ga.nodes[q].HasCombination([ga.bobjs[i] for i in S]) for q, S in queries]
-    gb = tg.build(spec)
-    rev = [gb.nodes[q].HasCombination([gb.bobjs[i] for i in S]) for q, S in reversed(queries)][::-1]
-    again = [ga.nodes[q].HasCombination([ga.bobjs[i] for i in S]) for q, S in queries]
-    st["queries"] += 3 * len(queries)
-    if fwd == rev == again and not any(fwd) :
-      # all False in both orders: a fresh program per query can only differ if it says True; still checked below
-      pass
-    for k, (q, S) in enumerate(queries):
-      gf = tg.build(spec)
-      fresh = gf.nodes[q].HasCombination([gf.bobjs[i] for i in S])
-      st["queries"] += 1
-      st["true"] += bool(fresh)
-      if not (fwd[k] == rev[k] == again[k] == fresh):
-        if len(viol) < VIOL_CAP:
-          viol.append((spec, "HasCombination(n%d, %s): fresh program %s, after %d earlier queries %s, after the %d later "
-                             "queries (reverse order) %s, asked again %s" % (q, list(S), fresh, k, fwd[k],
-                                                                             len(queries) - 1 - k, rev[k], again[k]),
-                       {"q": q, "S": list(S)}))
-        break
+    for op in _mutations(spec):
+      bad, nq = mut_check(spec, op)
+      st["mutations"] += 1
+      st["queries"] += 3 * nq
+      if bad and len(viol) < 50:
+        viol.append((spec, op, bad))
   return st, viol
 
 
@@ -368,12 +521,26 @@ def run(rep, tier, seed):
   # non-initial states: enumerated graphs x query orders
   gtot = {"graphs": 0, "queries": 0, "true": 0}
   if not os.environ.get("VERIF_C08_ONLY"):
-    for item, (st, viol) in vrun.pmap(graph_work, graph_items(tier), seed=seed, chunksize=1):
+    for item, (st, viol) in vrun.pmap(graph_work, graph_items(tier) + ss_items(tier), seed=seed, chunksize=1):
       for k2, v2 in st.items():
         gtot[k2] += v2
       for spec, summ, extra in viol:
         rep.violation(vrun.jkey({"graph": spec, "query": extra}), "query order on an enumerated graph: " + summ,
                       {"kind": "graph-queries", "spec": spec, "query": extra})
+    mtot = {"graphs": 0, "mutations": 0, "queries": 0}
+    for item, (st, viol) in vrun.pmap(mut_work, mut_items(tier), seed=seed, chunksize=1):
+      for k2, v2 in st.items():
+        mtot[k2] += v2
+      for spec, op, summ in viol:
+        rep.violation(vrun.jkey({"graph": spec, "mutation": list(op)}), "mutation after a warm cache: " + summ,
+                      {"kind": "graph-mutation", "spec": spec, "op": list(op)})
+    states += mtot["mutations"]
+    trans += mtot["mutations"]
+    rep.outcome("graph-mutations", mtot["mutations"])
+    rep.cov["mutation_after_warm_cache_phase"] = dict(
+        mtot, what="every graph of the families (see mut_items) x every single mutation of the alphabet (edge between "
+                   "any two nodes, new node, condition set/changed/cleared, new origin, new binding, PasteBinding) "
+                   "applied after ALL queries were asked; all queries re-asked and compared with a never-queried replica")
     states += gtot["queries"]
     trans += gtot["queries"]
     rep.outcome("graph-queries-true", gtot["true"])
@@ -400,6 +567,11 @@ def run(rep, tier, seed):
 
 
 def replay(case):
+  if case.get("kind") == "graph-mutation":
+    boot.load()
+    bad, _ = mut_check(case["spec"], tuple(tuple(x) if isinstance(x, list) else x for x in case["op"]))
+    return [{"key": vrun.jkey({"graph": case["spec"], "mutation": list(case["op"])}),
+             "summary": "mutation after a warm cache: " + bad}] if bad else []
   boot.load()
   if case.get("kind") == "graph-queries":
     from vk import tg
